@@ -1,6 +1,7 @@
 import GwModel.Trans.Transparent
 import GwModel.Gen.Facts
 import GwModel.Point
+import GwModel.FindPtsInsert
 /-! # C01 — Federated execution is transparent: gateway data equals monolith data
 
 Proved here (model `Tr`, GwModel/Trans): for the core query class (fields, aliases, nested selections,
@@ -54,5 +55,25 @@ theorem point_is_list_element_iff_indexed (key : List Char) (idx : Option Nat) (
 /-- non-vacuity: an id made of separators only -/
 example : Pt.parsePoint (Pt.renderPoint "users".toList (some 12) (some "#:#".toList)) = some ⟨"users".toList, some 12, "#:#".toList⟩ :=
   point_roundtrip _ _ _ (by decide) (by decide)
+
+/-- **a follow-up answer lands on the object it was fetched for.**  Every insertion path the executor realises
+    from a reply that has the promised kinds along the target path (`Fp.Conf`) leads, through that reply, to an
+    object whose id is the id recorded in the path (the id the follow-up call is made with); and inserting an
+    object payload at that path succeeds and merges it into exactly that object.  This is "no value is attached to
+    the wrong list element" for the real `executorFindInsertionPoints` + `executorInsertObject` (models tied to
+    execute.go by the L2.findpoints and L2.insert correspondences), for every list length, nesting depth, null
+    entry and id. -/
+theorem follow_up_lands_on_its_object (infos : List Fp.PInfo) (chunk : Ins.KVs) (paths : List (List Fp.RPt))
+    (h : Fp.findPts infos chunk [] = .ok paths) (hc : Fp.Conf infos chunk) (path : List Fp.RPt) (hp : path ∈ paths)
+    (inc : Ins.KVs) :
+    ∃ o x', Fp.walk (.obj chunk) path = some (.obj o) ∧
+      (∀ last, path.getLast? = some last → ∃ id, last.id = some id ∧ Ins.lookup 0 o = some id) ∧
+      Ins.insertAt (.obj chunk) (path.map Fp.toPt) (.obj inc) = some x' ∧
+      Fp.walk x' path = some (.obj (Ins.mergeK o inc)) := by
+  obtain ⟨suf, hsuf, _, o, hw, hlast⟩ := Fp.findPts_good infos chunk [] paths h hc path hp
+  simp only [List.nil_append] at hsuf
+  subst hsuf
+  obtain ⟨x', hi, hw'⟩ := Fp.insertAt_walk path (.obj chunk) o inc hw
+  exact ⟨o, x', hw, hlast, hi, hw'⟩
 
 end Props.C01
